@@ -57,19 +57,62 @@ pub enum Algo {
 }
 
 impl Algo {
+    /// the algorithm section as a user writes it in the configuration
+    pub fn config_json(&self) -> serde_json::Value {
+        use serde_json::json;
+        let sim_json = |s: &Option<Sim>| match s {
+            None => serde_json::Value::Null,
+            Some(Sim::AcceptAll) => json!({"type": "accept_all"}),
+            Some(Sim::EdgeCos(t)) => json!({"type": "edge_id_cosine_similarity", "threshold": t}),
+            Some(Sim::DistCos(t)) => json!({"type": "distance_weighted_cosine_similarity", "threshold": t}),
+        };
+        let term_json = |t: &Option<KTerm>| match t {
+            None => serde_json::Value::Null,
+            Some(KTerm::Exact) => json!({"type": "exact"}),
+            Some(KTerm::MaxIter(m)) => json!({"type": "max_iteration", "max": m}),
+            Some(KTerm::Factor(f)) => json!({"type": "factor", "factor": f}),
+        };
+        let ksp = |name: &str, k: &usize, under: &Algo, sim: &Option<Sim>, term: &Option<KTerm>| {
+            let mut v = json!({"type": name, "k": k, "underlying": under.config_json()});
+            if sim.is_some() {
+                v["similarity"] = sim_json(sim);
+            }
+            if term.is_some() {
+                v["termination"] = term_json(term);
+            }
+            v
+        };
+        match self {
+            Algo::Dijkstra => json!({"type": "dijkstra"}),
+            Algo::AStar(None) => json!({"type": "a*"}),
+            Algo::AStar(Some(w)) => json!({"type": "a*", "weight_factor": w}),
+            Algo::SingleVia { k, under, sim, term } => ksp("ksp_single_via", k, under, sim, term),
+            Algo::Yens { k, under, sim, term } => ksp("yens", k, under, sim, term),
+        }
+    }
+    /// built the way the application builds it: deserialised from the configuration section (a section the library does not
+    /// accept is a harness error and stops the run loudly)
     pub fn real(&self) -> SearchAlgorithm {
+        match serde_json::from_value::<SearchAlgorithm>(self.config_json()) {
+            Ok(a) => a,
+            Err(e) => panic!("harness: the library rejects the algorithm section {}: {}", self.config_json(), e),
+        }
+    }
+    /// the same algorithm constructed directly (not used by the checks; kept as documentation of the intended value)
+    #[allow(dead_code)]
+    pub fn constructed(&self) -> SearchAlgorithm {
         match self {
             Algo::Dijkstra => SearchAlgorithm::Dijkstra,
             Algo::AStar(w) => SearchAlgorithm::AStarAlgorithm { weight_factor: w.map(Cost::new) },
             Algo::SingleVia { k, under, sim, term } => SearchAlgorithm::KspSingleVia {
                 k: *k,
-                underlying: Box::new(under.real()),
+                underlying: Box::new(under.constructed()),
                 similarity: sim.as_ref().map(|s| s.real()),
                 termination: term.as_ref().map(|t| t.real()),
             },
             Algo::Yens { k, under, sim, term } => SearchAlgorithm::Yens {
                 k: *k,
-                underlying: Box::new(under.real()),
+                underlying: Box::new(under.constructed()),
                 similarity: sim.as_ref().map(|s| s.real()),
                 termination: term.as_ref().map(|t| t.real()),
             },
